@@ -20,6 +20,7 @@ OUTPUTS = {
     'gen_eff': ['Gen.EffSrcF', 'Gen.EffSrcR'],
     'gen_kin': ['Gen.ConvSrcF', 'Gen.ConvSrcR'],
     'gen_chisq': ['Gen.ChiSqSrcF', 'Gen.ChiSqSrcR'],
+    'gen_disp': ['Gen.DispSrcF', 'Gen.DispSrcR'],
 }
 
 
@@ -38,7 +39,7 @@ def main(strict=False):
         pass
     except Exception as e:
         status['py2lean'] = repr(e)[:400]
-    for gen in ('gen_classtable', 'gen_adim', 'gen_bhref', 'gen_qcd', 'gen_eff', 'gen_kin', 'gen_chisq'):
+    for gen in ('gen_classtable', 'gen_adim', 'gen_bhref', 'gen_qcd', 'gen_eff', 'gen_kin', 'gen_chisq', 'gen_disp'):
         try:
             mod = __import__(gen)
         except ImportError:
